@@ -20,6 +20,7 @@ func TestC09Histories(t *testing.T) {
 	rec.Require("wraps-256", "refused-between-accepted", "v1", "v2", "signed", "streamwriter", "framewriter", "raw-in-dialect", "id>=65536")
 	dpool := pool(t)
 	evid.Check(t, rec, evid.N(2500, 8000), func(t *rapid.T) {
+		readBufSize = 512
 		di := dpool[rapid.SampledFrom([]int{0, 0, 1, 3}).Draw(t, "dialect")]
 		v2 := rapid.Bool().Draw(t, "v2")
 		sys := byte(rapid.IntRange(1, 255).Draw(t, "sys"))
